@@ -15,7 +15,9 @@ def unpivot_rows(rows, fields_to_unpivot, fields_to_keep, extra_value):
         for unpivot_field in fields_to_unpivot:
             new_row = copy.deepcopy(unpivot_field['keys'])
             for field in fields_to_keep:
-                new_row[field] = row[field]
+                # every emitted row gets its own copy: array/object values must not be shared
+                # between the rows unpivoted from one source row
+                new_row[field] = copy.deepcopy(row[field])
             new_row[extra_value['name']] = row.get(unpivot_field['name'])
             yield new_row
 
